@@ -17,6 +17,7 @@
 #include "EbUtility.h"
 #include "EbDecBlock.h"
 #include "EbDecHandle.h"
+#include "EbVerifHooks.h"
 #include "EbObuParse.h"
 #include "EbDecMemInit.h"
 #include "EbDecPicMgr.h"
@@ -2114,6 +2115,7 @@ EbErrorType read_uncompressed_header(Bitstrm *bs, EbDecHandle *dec_handle_ptr, O
         /* Call System Resource Init only once */
         if (EB_FALSE == dec_handle_ptr->start_thread_process) {
             dec_system_resource_init(dec_handle_ptr, &tiles_info);
+            SVT_VERIF_HB_RELEASE(&dec_handle_ptr->start_thread_process);
             dec_handle_ptr->start_thread_process = EB_TRUE;
         }
         check_mt_support(dec_handle_ptr);
@@ -2364,9 +2366,11 @@ EbErrorType read_tile_group_obu(Bitstrm *bs, EbDecHandle *dec_handle_ptr, TilesI
         dec_mt_frame_data->motion_proj_info.num_motion_proj_rows       = sb_mvs_rows;
         dec_mt_frame_data->motion_proj_info.motion_proj_row_to_process = 0;
         dec_mt_frame_data->motion_proj_info.motion_proj_init_done      = EB_FALSE;
+        SVT_VERIF_HB_RELEASE(&dec_mt_frame_data->num_threads_header);
         dec_mt_frame_data->num_threads_header                          = 0;
 
         svt_block_on_mutex(dec_mt_frame_data->temp_mutex);
+        SVT_VERIF_HB_RELEASE(&dec_mt_frame_data->start_motion_proj);
         dec_mt_frame_data->start_motion_proj = EB_TRUE;
         svt_release_mutex(dec_mt_frame_data->temp_mutex);
         svt_post_semaphore(dec_handle_ptr->thread_semaphore);
@@ -2378,9 +2382,12 @@ EbErrorType read_tile_group_obu(Bitstrm *bs, EbDecHandle *dec_handle_ptr, TilesI
         svt_av1_queue_parse_jobs(dec_handle_ptr, tiles_info);
 
         svt_block_on_mutex(dec_mt_frame_data->temp_mutex);
+        SVT_VERIF_HB_RELEASE(&dec_mt_frame_data->start_parse_frame);
         dec_mt_frame_data->start_parse_frame = EB_TRUE;
 
+        SVT_VERIF_HB_RELEASE(&dec_mt_frame_data->num_threads_cdefed);
         dec_mt_frame_data->num_threads_cdefed = 0;
+        SVT_VERIF_HB_RELEASE(&dec_mt_frame_data->num_threads_lred);
         dec_mt_frame_data->num_threads_lred   = 0;
 
         svt_release_mutex(dec_mt_frame_data->temp_mutex);
@@ -2392,11 +2399,13 @@ EbErrorType read_tile_group_obu(Bitstrm *bs, EbDecHandle *dec_handle_ptr, TilesI
         svt_av1_queue_cdef_jobs(dec_handle_ptr);
         svt_block_on_mutex(dec_mt_frame_data->temp_mutex);
 
+        SVT_VERIF_HB_RELEASE(&dec_mt_frame_data->start_lf_frame);
         dec_mt_frame_data->start_lf_frame = EB_TRUE;
         /*ToDo : Post outside mutex lock */
         svt_post_semaphore(dec_handle_ptr->thread_semaphore);
         for (uint32_t lib_thrd = 0; lib_thrd < num_threads - 1; lib_thrd++)
             svt_post_semaphore(dec_handle_ptr->thread_ctxt_pa[lib_thrd].thread_semaphore);
+        SVT_VERIF_HB_RELEASE(&dec_mt_frame_data->start_cdef_frame);
         dec_mt_frame_data->start_cdef_frame = EB_TRUE;
         svt_post_semaphore(dec_handle_ptr->thread_semaphore);
         for (uint32_t lib_thrd = 0; lib_thrd < num_threads - 1; lib_thrd++)
@@ -2486,6 +2495,8 @@ EbErrorType read_tile_group_obu(Bitstrm *bs, EbDecHandle *dec_handle_ptr, TilesI
     if (is_mt) {
         if (do_upscale)
             svt_av1_queue_lr_jobs(dec_handle_ptr);
+        SVT_VERIF_HB_RELEASE(
+            &dec_handle_ptr->main_frame_buf.cur_frame_bufs[0].dec_mt_frame_data.start_lr_frame);
         dec_handle_ptr->main_frame_buf.cur_frame_bufs[0].dec_mt_frame_data.start_lr_frame = EB_TRUE;
         svt_post_semaphore(dec_handle_ptr->thread_semaphore);
         for (uint32_t lib_thrd = 0; lib_thrd < num_threads - 1; lib_thrd++)
